@@ -215,3 +215,15 @@ Proof.
   unfold W4. intros E. repeat (apply orb_true_iff in E; destruct E as [E|E]);
     repeat (apply orb_true_iff; (left + right)); auto; fail.
 Qed.
+
+(* hardened model: the creation stage is a plain field; everything else is read through it *)
+Lemma get_thread_set_stage v s th : get_thread (s <| stage := v |>) th = get_thread s th. Proof. reflexivity. Qed.
+Lemma vis_of_set_stage v s n : vis_of (s <| stage := v |>) n = vis_of s n. Proof. reflexivity. Qed.
+Lemma insts_set_stage v s : insts (s <| stage := v |>) = insts s. Proof. reflexivity. Qed.
+Lemma viss_set_stage v s : viss (s <| stage := v |>) = viss s. Proof. reflexivity. Qed.
+Lemma running_set_stage v s : running (s <| stage := v |>) = running s. Proof. reflexivity. Qed.
+Lemma sd_active_set_stage v s : sd_active (s <| stage := v |>) = sd_active s. Proof. reflexivity. Qed.
+Lemma thinst_set_stage v s : thinst (s <| stage := v |>) = thinst s. Proof. reflexivity. Qed.
+Lemma threads_set_stage v s : threads (s <| stage := v |>) = threads s. Proof. reflexivity. Qed.
+#[export] Hint Rewrite get_thread_set_stage vis_of_set_stage insts_set_stage viss_set_stage running_set_stage
+  sd_active_set_stage thinst_set_stage threads_set_stage : sup.
